@@ -39,7 +39,7 @@ func splitHexList(s string) []string {
 }
 
 func runC14(res *lib.Result, tier string, seed int64, args []string) error {
-	nProg, nPos := 60, 6
+	nProg, nPos := 120, 6
 	if tier == "thorough" {
 		nProg, nPos = 2500, 10
 	}
@@ -55,6 +55,12 @@ func runC14(res *lib.Result, tier string, seed int64, args []string) error {
 	for pi := 0; pi < nProg; pi++ {
 		r := root.Fork(uint64(pi))
 		base := genUniqueProgram(r)
+		nonUnique := pi%2 == 1
+		if nonUnique {
+			// shadowing and re-declaration in the same block (names from a 6-name pool)
+			base = genScopeProgram(r)
+			res.Dist("program.non-unique-names")
+		}
 		lines := strings.Split(strings.TrimRight(base, "\n"), "\n")
 		for k := 0; k < nPos; k++ {
 			at := r.Intn(len(lines) + 1)
@@ -74,6 +80,9 @@ func runC14(res *lib.Result, tier string, seed int64, args []string) error {
 				}
 			}
 			prefix := []string{"a", "ab", "ac", "b", "x", "abc"}[r.Intn(6)]
+			if nonUnique {
+				prefix = []string{"a", "b", "c", "x", "y", "v"}[r.Intn(6)]
+			}
 			ins := indent + "local zq = " + prefix
 			var nl []string
 			nl = append(nl, lines[:at]...)
